@@ -2,7 +2,7 @@
    representation.  Only statements; every proof is `exact <lemma>` (Proofs/C02Proofs.v).
    The functions td_*/dt_*/tv_* are regenerated from /repo/src/nitypes/bintime on every run. *)
 From Coq Require Import ZArith List.
-From NV Require Import Common.Py Common.Trans Spec.TimeSpec Gen.BintimeGen Model.Cvi Proofs.C02Proofs.
+From NV Require Import Common.Py Common.Trans Spec.TimeSpec Gen.BintimeGen Model.Cvi Proofs.C02Proofs Model.PickleInt Proofs.C02Pickle.
 Open Scope Z_scope.
 
 (* whole_seconds = floor(ticks / 2^64), fractional_seconds = ticks mod 2^64, for EVERY integer *)
@@ -98,6 +98,17 @@ Print Assumptions C02_datetime_from_offset.
 Theorem C02_datetime_pickle : forall t, in128 t = true -> dt_unpickle t = Ok t.
 Proof. exact dt_pickle_roundtrip. Qed.
 Print Assumptions C02_datetime_pickle.
+
+(* ... and pickling down to the bytes: pickle (protocol 2 and later) writes the tick count with save_int - BININT1/2,
+   BININT, or LONG1 with the minimal little-endian two's-complement bytes (Model/PickleInt.v, compared with the int
+   opcode found in the implementation's pickle streams by the correspondence) - and reading it back is lossless for
+   every integer that LONG1 can hold, in particular for every 128-bit tick count *)
+Theorem C02_pickle_int_bytes : forall t, in128 t = true -> load_int (save_int t) = Some t.
+Proof. exact load_save_int_128. Qed.
+Print Assumptions C02_pickle_int_bytes.
+Theorem C02_pickle_long_roundtrip : forall x, decode_long (encode_long x) = x.
+Proof. exact decode_encode_long. Qed.
+Print Assumptions C02_pickle_long_roundtrip.
 
 (* non-vacuity: the hypotheses are met by a value with a negative whole part and frac >= 2^63 *)
 Example C02_witness :
